@@ -1544,6 +1544,10 @@ fn seeds() -> Vec<String> {
     v.push(sweep.replace("dir=cs", "dir=sc"));
     v.push(sweep.replace("seed=11", "seed=12 noi=250"));
     v.push(sweep.replace("cmf=512 lmf=512", "cmf=1024 lmf=700").replace("msz=520", "msz=720").replace("seed=11", "seed=13 noi=4294967200"));
+    // a receiving link whose buffer (16, 32) is smaller than the credit it grants, a pipelining sender and a slow consumer:
+    // the session must wait for room in the link's buffer, not drop what does not fit
+    v.push("e2e rt=p dir=sc cmf=4096 lmf=4096 ciw=5000 cow=5000 liw=5000 low=5000 cr=a64 ssm=u rsm=1 aa=1 lag=0 cb=65535 sb=65535 lb=16 lcb=65535 lsb=65535 pipe=65536 ch=l net=0 n=80 msz=120 slow=20 pend=64 seed=21".to_string());
+    v.push("e2e rt=p dir=sc cmf=512 lmf=512 ciw=5000 cow=5000 liw=5000 low=5000 cr=a200 ssm=s rsm=1 aa=1 lag=0 cb=65535 sb=65535 lb=32 lcb=65535 lsb=65535 pipe=65536 ch=l net=0 n=60 msz=1500 slow=20 pend=64 seed=22".to_string());
     // transfer-ids crossing the 2^32 wrap
     v.push("e2e rt=p dir=cs cmf=4096 lmf=4096 ciw=5000 cow=5000 liw=5000 low=5000 cr=a10 ssm=u rsm=1 aa=1 lag=0 cb=65535 sb=65535 lb=65535 lcb=65535 lsb=65535 pipe=65536 ch=l net=0 n=40 msz=300 slow=0 pend=0 seed=14 noi=4294967290".to_string());
     v.push("e2e rt=p dir=sc cmf=512 lmf=512 ciw=3 cow=4 liw=5 low=2 cr=a3 ssm=m rsm=2 aa=1 lag=0 cb=16 sb=16 lb=16 lcb=16 lsb=16 pipe=4096 ch=m net=1 n=40 msz=1500 slow=0 pend=3 seed=15 noi=4294967280".to_string());
